@@ -2,7 +2,20 @@
 
 package xlsx
 
-import "errors"
+import (
+	"archive/zip"
+	"errors"
+	"strings"
+)
+
+var vZip *zip.ReadCloser
+
+func vStubOpenZip(name string) (*zip.ReadCloser, error) { return vZip, nil }
+
+func vMember(name, content string) {
+	vZip.File = append(vZip.File, &zip.File{FileHeader: zip.FileHeader{Name: name}})
+	vZipContent(name, content)
+}
 
 var vParts map[string]string
 
@@ -158,6 +171,102 @@ func H_C18_xlsx_from_xml() {
 		vAssert("workbook-order", got[i] == nm)
 		c := r.sheets[i].Cell(0, 0)
 		vAssert("own-part-text", c != nil && c.Value == "part"+string(rune('1'+p[i])))
+	}
+	vReach("end")
+}
+
+// H_C17_xlsx_package: a whole workbook, given as the texts of its parts and opened by the real xlsx.Open: every cell's
+// displayed value at line r / field c of the tab-separated text and at [r][c] of the sheet grid, with a merged region
+// showing its value at the top-left only.
+//
+//symgo:harness prop=C17 kernel=K4-xlsx-package noreplay=1
+//symgo:redirect archive/zip.OpenReader vStubOpenZip
+//symgo:desc zip layer cut (OpenReader returns a harness-built member list; member content model); parts: [Content_Types].xml, xl/workbook.xml (one sheet), relationships, xl/sharedStrings.xml, xl/styles.xml, one worksheet with cells at three of the addresses {A1, C1, B2, D3} (the omitted one enumerated), the first of kind shared string, number, boolean, error or inline string (enumerated) and the others of fixed different kinds, rows written in either order, and optionally a merged range B2:C3 or A1:B1 (enumerated) whose top-left holds one of the cells: Open succeeds; Sheet.Cell and line r / field c of Text() show each value at its address, every other field is empty, and the merged region's other cells are blank
+func H_C17_xlsx_package() {
+	refs := []string{"A1", "C1", "B2", "D3"}
+	pos := [][2]int{{0, 0}, {0, 2}, {1, 1}, {2, 3}}
+	var picked []int
+	var cellsXML [4]string
+	want := map[[2]int]string{}
+	omit := vAnyIntIn(0, 3)
+	k := 0
+	for a := 0; a < 4; a++ {
+		if a == omit {
+			continue
+		}
+		picked = append(picked, a)
+		tag := "v" + string(rune('0'+k))
+		kind := (k + 1) % 5 // the first cell's kind is enumerated, the others take fixed different kinds
+		if k == 0 {
+			kind = vAnyIntIn(0, 4)
+		}
+		var cx, val string
+		switch kind {
+		case 0:
+			cx, val = `<c r="`+refs[a]+`" t="s"><v>`+string(rune('0'+k%2))+`</v></c>`, []string{"shared0", "shared1"}[k%2]
+		case 1:
+			cx, val = `<c r="`+refs[a]+`"><v>4`+string(rune('0'+k))+`</v></c>`, "4"+string(rune('0'+k))
+		case 2:
+			cx, val = `<c r="`+refs[a]+`" t="b"><v>1</v></c>`, "TRUE"
+		case 3:
+			cx, val = `<c r="`+refs[a]+`" t="e"><v>#N/A</v></c>`, "#N/A"
+		default:
+			cx, val = `<c r="`+refs[a]+`" t="inlineStr"><is><t>`+tag+`</t></is></c>`, tag
+		}
+		cellsXML[a] = cx
+		want[[2]int{pos[a][0], pos[a][1]}] = val
+		k++
+	}
+	rowsXML := []string{`<row r="1">` + cellsXML[0] + cellsXML[1] + `</row>`, `<row r="2">` + cellsXML[2] + `</row>`, `<row r="3">` + cellsXML[3] + `</row>`}
+	sheetData := rowsXML[0] + rowsXML[1] + rowsXML[2]
+	if vAnyIntIn(0, 1) == 1 {
+		sheetData = rowsXML[2] + rowsXML[0] + rowsXML[1]
+	}
+	merge := ""
+	var blank [][2]int
+	switch vAnyIntIn(0, 2) {
+	case 1:
+		merge, blank = `<mergeCells count="1"><mergeCell ref="B2:C3"/></mergeCells>`, [][2]int{{1, 2}, {2, 1}, {2, 2}}
+	case 2:
+		merge, blank = `<mergeCells count="1"><mergeCell ref="A1:B1"/></mergeCells>`, [][2]int{{0, 1}}
+	}
+	ws := `<?xml version="1.0" encoding="UTF-8"?><worksheet ` + vNS + `><dimension ref="A1:D3"/><sheetData>` + sheetData + `</sheetData>` + merge + `</worksheet>`
+	vZip = &zip.ReadCloser{}
+	vMember("[Content_Types].xml", `<?xml version="1.0"?><Types xmlns="http://schemas.openxmlformats.org/package/2006/content-types"/>`)
+	vMember("xl/worksheets/sheet1.xml", ws)
+	vMember("xl/styles.xml", `<?xml version="1.0"?><styleSheet `+vNS+`><cellXfs count="1"><xf numFmtId="0"/></cellXfs></styleSheet>`)
+	vMember("xl/sharedStrings.xml", `<?xml version="1.0"?><sst `+vNS+` count="2" uniqueCount="2"><si><t>shared0</t></si><si><r><t>shar</t></r><r><t>ed1</t></r></si></sst>`)
+	vMember("xl/_rels/workbook.xml.rels", `<?xml version="1.0"?><Relationships xmlns="http://schemas.openxmlformats.org/package/2006/relationships"><Relationship Id="rId1" Type="http://schemas.openxmlformats.org/officeDocument/2006/relationships/worksheet" Target="worksheets/sheet1.xml"/></Relationships>`)
+	vMember("xl/workbook.xml", `<?xml version="1.0"?><workbook `+vNS+` xmlns:r="http://schemas.openxmlformats.org/officeDocument/2006/relationships"><sheets><sheet name="Data" sheetId="1" r:id="rId1"/></sheets></workbook>`)
+	r, err := Open("any.xlsx")
+	vAssert("opens", err == nil && r != nil)
+	vAssert("one-sheet", len(r.sheets) == 1)
+	sheet := r.sheets[0]
+	txt, terr := r.Text()
+	vAssert("text-no-error", terr == nil)
+	lines := strings.Split(txt, "\n")
+	for ri := 0; ri < len(sheet.Rows); ri++ {
+		var fields []string
+		if ri < len(lines) {
+			fields = strings.Split(lines[ri], "\t")
+		}
+		for ci := 0; ci < len(sheet.Rows[ri]); ci++ {
+			exp := want[[2]int{ri, ci}]
+			for _, b := range blank {
+				if b[0] == ri && b[1] == ci {
+					exp = ""
+				}
+			}
+			vAssert("grid-value-at-address", sheet.Rows[ri][ci].Value == exp || (exp == "" && sheet.Rows[ri][ci].IsMerged))
+			got := ""
+			if ci < len(fields) {
+				got = fields[ci]
+			}
+			vAssert("text-line-r-field-c", got == exp)
+		}
+	}
+	for p := range want {
+		vAssert("address-inside-grid", p[0] < len(sheet.Rows) && p[1] < len(sheet.Rows[p[0]]))
 	}
 	vReach("end")
 }
